@@ -172,6 +172,9 @@ def gen_ipm_messages(rng, codec, n):
             m['DE48'] = iu.pds_text(ents)             # a directly supplied carrier, canonical or not
         if r > 0.8:
             m['DE55'] = iu.gen_tlvs(rng)
+        if 0.5 <= r < 0.58:
+            # a file trailer (1644 / function code 695) or header (697) message, wherever it stands in the file
+            m = {'MTI': '1644', 'DE24': '695' if r < 0.55 else '697', 'DE71': str(rng.randrange(1, 99999999))}
         try:
             if len(iu.ref_encode(m, pkg, codec, False)) <= c07.c03max():
                 msgs.append(m)
